@@ -88,6 +88,8 @@ w("44", "C06", "'#' pointer token of more than 4300 digits raises ValueError", {
 w("45", "C06", "a pointer with an unknown backslash sequence makes the library emit DeprecationWarning (an exception where such warnings are errors)", {"kind": "pointer", "text": "/a\\g<0>/\\400", "docs": [{"a": 1}], "warnings_as_errors": True})
 w("46", "C05", "move out of a tuple reports success and leaves the source in place", {"tuples": True, "doc": [1, [2, 3], {"a": 4}], "tuple_at": [[]], "op": {"op": "move", "from": "/0", "path": "/1/-"}})
 w("46", "C05", "move out of a tuple held in an object reports success and leaves the source in place", {"tuples": True, "doc": {"a": [], "b": [0, 1, 2], "c": {"d": {"e": 1}}}, "tuple_at": [["b"]], "op": {"op": "move", "from": "/b/0", "path": "/c/x"}})
+w("47", "C06", "relative pointer whose new index has 4301 digits raises ValueError when applied", {"kind": "pointer", "text": "0+" + "9" * 4300, "docs": [[1]]})
+w("47", "C06", "the same with the key marker", {"kind": "pointer", "text": "0+" + "9" * 4300 + "#", "docs": [[1]]})
 w("38", "C06", "patch target with a key marker raises KeyError", {"kind": "patch", "ops": [{"op": "remove", "path": "/#a"}], "docs": [{"a": 1}]})
 w("38", "C06", "patch target with an index marker raises ValueError", {"kind": "patch", "ops": [{"op": "add", "path": "/b/#0", "value": 1}], "docs": [{"b": [1, 2]}]})
 
